@@ -8,10 +8,11 @@ import GoDebian.Drv.Deb822
 import GoDebian.Drv.Codec
 import GoDebian.Drv.Deb
 import GoDebian.Drv.Changelog
+import GoDebian.Drv.Hashio
 
 open GoDebian GoDebian.Drv
 
-def handlers : List Handler := [versionHandler, dependencyHandler, deb822Handler, codecHandler, debHandler, changelogHandler]
+def handlers : List Handler := [versionHandler, dependencyHandler, deb822Handler, codecHandler, debHandler, changelogHandler, hashioHandler]
 
 def dispatch (line : String) : String :=
   match (line.splitOn " ").filter (· ≠ "") with
